@@ -168,10 +168,10 @@ func guardedClasses(w *World) []*guardedClass {
 		if !ok {
 			continue
 		}
-		g := &guardedClass{Name: n, T: named}
+		g := &guardedClass{Name: namedTypeName(named), T: named}
 		for i := 0; i < st.NumFields(); i++ {
 			f := st.Field(i)
-			ts := types.TypeString(f.Type(), nil)
+			ts := tstr(f.Type(), nil)
 			if ts == "sync.RWMutex" || ts == "sync.Mutex" {
 				g.MuField = f.Name()
 			} else {
@@ -198,7 +198,7 @@ type fieldAccess struct {
 }
 
 func isAtomicType(t types.Type) bool {
-	return strings.HasPrefix(types.TypeString(t, nil), "sync/atomic.")
+	return strings.HasPrefix(tstr(t, nil), "sync/atomic.")
 }
 
 // accessesOf lists accesses to fields of guarded classes in fn.
@@ -218,7 +218,7 @@ func accessesOf(w *World, fn *ssa.Function, classes map[string]*guardedClass) []
 		if !ok {
 			return
 		}
-		g := classes[named.Obj().Name()]
+		g := classes[namedTypeName(named)]
 		if g == nil || named.Obj().Pkg() != w.Types {
 			return
 		}
@@ -227,7 +227,7 @@ func accessesOf(w *World, fn *ssa.Function, classes map[string]*guardedClass) []
 			return
 		}
 		st := named.Underlying().(*types.Struct)
-		if isAtomicType(st.Field(fa.Field).Type()) || strings.HasPrefix(types.TypeString(st.Field(fa.Field).Type(), nil), "sync.") {
+		if isAtomicType(st.Field(fa.Field).Type()) || strings.HasPrefix(tstr(st.Field(fa.Field).Type(), nil), "sync.") {
 			return // atomics, WaitGroups, pools synchronise themselves
 		}
 		acc := fieldAccess{Fn: fn, In: in, Class: g.Name, Field: f, Base: c.S(fa.X)}
